@@ -99,14 +99,17 @@ func helperReturns(fn *ssa.Function, idx int) []ssa.Value {
 		if idx >= len(r.Results) {
 			continue
 		}
-		v := r.Results[idx]
+		if fn.Recover != nil && r.Block() == fn.Recover {
+			continue // the synthetic exit taken after a recovered panic re-reads the spilled results
+		}
+		v := LoadOrigin(r.Results[idx]) // results spilled because of a defer
 		if ei >= 0 && ei != idx && ei < len(r.Results) {
-			if _, isC := v.(*ssa.Const); isC && !isNilConst(r.Results[ei]) {
+			if _, isC := v.(*ssa.Const); isC && !isNilConst(LoadOrigin(r.Results[ei])) {
 				continue
 			}
 		}
 		// the comma-ok idiom: `return zero, false`
-		if last := len(r.Results) - 1; last != idx && last >= 1 && isBoolConst(r.Results[last], false) {
+		if last := len(r.Results) - 1; last != idx && last >= 1 && isBoolConst(LoadOrigin(r.Results[last]), false) {
 			if _, isC := v.(*ssa.Const); isC {
 				continue
 			}
@@ -260,6 +263,10 @@ func derives(v ssa.Value, s FlowSpec, seen map[seenKey]bool, depth int, fr *Fram
 		return derives(x.X, s, seen, depth+1, fr)
 	case *ssa.UnOp:
 		if x.Op == token.MUL {
+			// a load that directly follows the store it reads (spilled results, `x := v; use(x)`)
+			if o := LoadOrigin(x); o != ssa.Value(x) {
+				return derives(o, s, seen, depth+1, fr)
+			}
 			// load: from a local alloc -> the values stored into it
 			switch a := x.X.(type) {
 			case *ssa.Alloc:
